@@ -141,6 +141,21 @@ def matches_of(scan, string_index=0):
     return [(m["offset"], m["length"]) for m in st[string_index]["matches"]]
 
 
+def profiles_agree(out):
+    """match lists and matched rules of every scan are the same under the other compiler profile"""
+    other = out.get("scans_other_profile")
+    if other is None:
+        return True
+    if not isinstance(other, list) or len(other) != len(out["scans"]):
+        return False
+
+    def view(s):
+        if not isinstance(s, dict) or "rules" not in s:
+            return ("bad", json.dumps(s, sort_keys=True)[:200])
+        return [(r["name"], [[(m["offset"], m["length"]) for m in st["matches"]] for st in r["strings"]]) for r in s["rules"]]
+    return all(view(a) == view(b) for a, b in zip(out["scans"], other))
+
+
 def g_matches(ms):
     return glist([gpair(gN(o), gN(l)) for o, l in ms])
 
